@@ -58,14 +58,39 @@ def _obs(fn, *a):
 
 
 def real_table():
-    from pyatv.protocols.dmap import tag_definitions, tags
+    """name -> kind for the real lookup table.  Names: keys of the module-level dict(s) of
+    DmapTag values in tag_definitions (whatever they are called; 4-character string literals of
+    the module source as a fallback).  Kinds are determined BEHAVIOURALLY through the public
+    `lookup_tag`: "container", or what the tag's reader returns for a one-byte probe."""
+    import inspect
+    import re
 
-    kinds = {tags.read_uint: "u", tags.read_bool: "b", tags.read_str: "s", tags.read_bytes: "r",
-             tags.read_ignore: "i", "container": "c"}
+    from pyatv.protocols.dmap import parser, tag_definitions
+
+    names = set()
+    for val in vars(tag_definitions).values():
+        if isinstance(val, dict) and val and all(isinstance(v, parser.DmapTag) for v in val.values()):
+            names.update(k for k in val if isinstance(k, str))
+    if not names:
+        names.update(re.findall(r"[\"']([A-Za-z0-9]{4})[\"']", inspect.getsource(tag_definitions)))
     out = {}
-    for name, tag in tag_definitions._TAGS.items():
-        k = kinds.get(tag.type)
-        if k is not None and len(name.encode()) == 4:
+    default = tag_definitions.lookup_tag("\x00\x00\x00\x00")
+    for name in sorted(names):
+        if len(name.encode()) != 4:
+            continue
+        tag = tag_definitions.lookup_tag(name)
+        if tag == default:
+            continue                      # not in the table (its kind is the default anyway)
+        if tag.type == "container":
+            out[name] = "c"
+            continue
+        try:
+            one, two = tag.type(b"\x01", 0, 1), tag.type(b"\x02", 0, 1)
+        except Exception:
+            continue                      # e.g. read_bplist: not a modelled kind
+        kind = {(True, False): "b", (1, 2): "u", ("\x01", "\x02"): "s", ("0x01", "0x02"): "r", (None, None): "i"}
+        k = next((v for key, v in kind.items() if (one, two) == key and type(one) is type(key[0])), None)
+        if k is not None:
             out[name] = k
     return out
 
